@@ -38,6 +38,16 @@ def run(tier, selftest):
         for s in (True, False):
             docs.append((t, s))
             meta.append(c)
+    # IF_DATA that conforms to its definition except for a problem the reader tolerates with a warning (a string longer than
+    # its char[n], an identifier in place of a string): judged by the pair relations (R2: silent lenient load => strict load
+    # with an equal model)
+    aml = 'block "IF_DATA" taggedunion { "NAME" struct { char[4]; uint; }; "LIST" (char[3])*; };'
+    for i, content in enumerate(('NAME "abcdefgh" 5', "NAME abcd 5", 'LIST "ab" "toolong" "c"', 'NAME "abc" 5')):
+        t = (f'ASAP2_VERSION 1 71\n/begin PROJECT p ""\n  /begin MODULE m ""\n    /begin A2ML\n      {aml}\n    /end A2ML\n'
+             f'    /begin IF_DATA {content}\n    /end IF_DATA\n  /end MODULE\n/end PROJECT\n')
+        for sflag in (True, False):
+            docs.append((t, sflag))
+            meta.append({"k": "ifdata_tolerated", "i": i, "content": content})
     results = pc.run_loads(binp, docs, PID)
     events = [pc.load_event(r, s, None, built_from=c) for r, (t, s), c in zip(results, docs, meta)]
     npairs = 0
